@@ -38,18 +38,18 @@ def d2 (x : Nat → V3 K) (i j : Nat) : K :=
   (dvec x 0 i j).x * (dvec x 0 i j).x + (dvec x 0 i j).y * (dvec x 0 i j).y + (dvec x 0 i j).z * (dvec x 0 i j).z
 
 /-- contribution of the inner loop body `(j,i)` to slot `k` -/
-def innerC (kern : K → K) (G : K) (sqrt : K → K) (m : Nat → K) (x : Nat → V3 K) (R : V3 K) (M : K)
+def innerC (kern : K → K) (G : K) (sqrt : K → K) (Na : Nat) (m : Nat → K) (x : Nat → V3 K) (R : V3 K) (M : K)
     (j i k : Nat) : V3 K :=
   (if 1 < j then (if i = k then jacTerm G sqrt m x R M j i else 0) else 0)
-  + (if i ≠ j ∧ (i ≠ 0 ∨ j ≠ 1) then
+  + (if (i ≠ j ∧ (i ≠ 0 ∨ j ≠ 1)) ∧ (i < Na ∨ j < Na) then
       ((if i = k then (-(kern (d2 x i j) * m j)) • dvec x 0 i j else 0)
         + (if j = k then (kern (d2 x i j) * m i) • dvec x 0 i j else 0))
     else 0)
 
-theorem additive_jacInner (kern : K → K) (G : K) (sqrt : K → K) {N : Nat} (m : Nat → K) (x : Nat → V3 K)
+theorem additive_jacInner (kern : K → K) (G : K) (sqrt : K → K) (Na : Nat) {N : Nat} (m : Nat → K) (x : Nat → V3 K)
     (R : V3 K) (M : K) {i j : Nat} (hi : i < N) (hj : j < N) :
-    Additive (fun acc => jacInner kern G sqrt (mkPs N m x) R M j acc i)
-      (innerC kern G sqrt m x R M j i) := by
+    Additive (fun acc => jacInner kern G sqrt Na (mkPs N m x) R M j acc i)
+      (innerC kern G sqrt Na m x R M j i) := by
   have e : (⟨(x i).x - (x j).x, (x i).y - (x j).y, (x i).z - (x j).z⟩ : V3 K) = dvec x 0 i j := by
     ext <;> simp [dvec]
   have es : ((x i).x - (x j).x) * ((x i).x - (x j).x) + ((x i).y - (x j).y) * ((x i).y - (x j).y)
@@ -68,15 +68,15 @@ theorem additive_jacInner (kern : K → K) (G : K) (sqrt : K → K) {N : Nat} (m
     · simp only [h, if_true]; exact additive_addTo i _ _
     · simp only [h, if_false]; exact additive_id
   -- second half: direct term
-  have h2 : Additive (fun acc : Acc K => if i ≠ j ∧ (i ≠ 0 ∨ j ≠ 1) then
+  have h2 : Additive (fun acc : Acc K => if (i ≠ j ∧ (i ≠ 0 ∨ j ≠ 1)) ∧ (i < Na ∨ j < Na) then
         addTo (acc.modify i fun a => ⟨a.x - kern (d2 x i j) * m j * (dvec x 0 i j).x,
             a.y - kern (d2 x i j) * m j * (dvec x 0 i j).y, a.z - kern (d2 x i j) * m j * (dvec x 0 i j).z⟩)
           j (kern (d2 x i j) * m i) (dvec x 0 i j)
       else acc)
-      (fun k => if i ≠ j ∧ (i ≠ 0 ∨ j ≠ 1) then
+      (fun k => if (i ≠ j ∧ (i ≠ 0 ∨ j ≠ 1)) ∧ (i < Na ∨ j < Na) then
         ((if i = k then (-(kern (d2 x i j) * m j)) • dvec x 0 i j else 0)
           + (if j = k then (kern (d2 x i j) * m i) • dvec x 0 i j else 0)) else 0) := by
-    by_cases h : i ≠ j ∧ (i ≠ 0 ∨ j ≠ 1)
+    by_cases h : (i ≠ j ∧ (i ≠ 0 ∨ j ≠ 1)) ∧ (i < Na ∨ j < Na)
     · simp only [if_pos h]
       refine additive_comp (f := fun acc : Acc K => acc.modify i fun a =>
           ⟨a.x - kern (d2 x i j) * m j * (dvec x 0 i j).x, a.y - kern (d2 x i j) * m j * (dvec x 0 i j).y,
@@ -85,8 +85,8 @@ theorem additive_jacInner (kern : K → K) (G : K) (sqrt : K → K) {N : Nat} (m
       apply additive_modify
       intro a; ext <;> simp <;> ring
     · simp only [if_neg h]; exact additive_id
-  have hf : (fun acc => jacInner kern G sqrt (mkPs N m x) R M j acc i)
-      = (fun acc => (fun acc : Acc K => if i ≠ j ∧ (i ≠ 0 ∨ j ≠ 1) then
+  have hf : (fun acc => jacInner kern G sqrt Na (mkPs N m x) R M j acc i)
+      = (fun acc => (fun acc : Acc K => if (i ≠ j ∧ (i ≠ 0 ∨ j ≠ 1)) ∧ (i < Na ∨ j < Na) then
             addTo (acc.modify i fun a => ⟨a.x - kern (d2 x i j) * m j * (dvec x 0 i j).x,
                 a.y - kern (d2 x i j) * m j * (dvec x 0 i j).y, a.z - kern (d2 x i j) * m j * (dvec x 0 i j).z⟩)
               j (kern (d2 x i j) * m i) (dvec x 0 i j)
@@ -100,46 +100,46 @@ theorem additive_jacInner (kern : K → K) (G : K) (sqrt : K → K) {N : Nat} (m
           else acc) acc)) := by
     funext acc
     simp only [jacInner, mkPs_get m x hi, mkPs_get m x hj, sc_hadd, sc_hsub, sc_hmul, sc_hdiv, sc_hneg, e, es,
-      bne_iff_ne, Bool.and_eq_true, Bool.or_eq_true, ne_eq, Qv]
-    by_cases hj1 : 1 < j <;> by_cases hd : ¬i = j ∧ (¬i = 0 ∨ ¬j = 1) <;> simp [hj1, hd] <;> simp [dvec]
+      bne_iff_ne, Bool.and_eq_true, Bool.or_eq_true, decide_eq_true_eq, ne_eq, Qv]
+    by_cases hj1 : 1 < j <;> by_cases hd : (¬i = j ∧ (¬i = 0 ∨ ¬j = 1)) ∧ (i < Na ∨ j < Na) <;> simp [hj1, hd] <;> simp [dvec]
   rw [hf]
   exact additive_congr (additive_comp h1 h2) (by intro k; simp [innerC])
 
-theorem innerC_zero (kern : K → K) (G : K) (sqrt : K → K) (m : Nat → K) (x : Nat → V3 K) (R : V3 K) (M : K)
-    {j i k : Nat} (hi : i ≠ k) (hj : j ≠ k) : innerC kern G sqrt m x R M j i k = 0 := by
+theorem innerC_zero (kern : K → K) (G : K) (sqrt : K → K) (Na : Nat) (m : Nat → K) (x : Nat → V3 K) (R : V3 K) (M : K)
+    {j i k : Nat} (hi : i ≠ k) (hj : j ≠ k) : innerC kern G sqrt Na m x R M j i k = 0 := by
   simp [innerC, hi, hj]
 
 /-- body of the outer `for (int j=0; j<N; j++)` loop -/
-def jacBody (kern : K → K) (G : K) (sqrt : K → K) (ps : Array (Body K)) (st : JacSt K) (j : Nat) : JacSt K :=
+def jacBody (kern : K → K) (G : K) (sqrt : K → K) (Na : Nat) (ps : Array (Body K)) (st : JacSt K) (j : Nat) : JacSt K :=
   let acc := st.acc.setIfInBounds j V3.zero
-  let acc := forRange 0 (j + 1) acc (jacInner kern G sqrt ps st.R st.M j)
+  let acc := forRange 0 (j + 1) acc (jacInner kern G sqrt Na ps st.R st.M j)
   match ps[j]? with
   | some pj =>
     ⟨acc, ⟨st.R.x + pj.m * pj.p.x, st.R.y + pj.m * pj.p.y, st.R.z + pj.m * pj.p.z⟩, st.M + pj.m⟩
   | none => ⟨acc, st.R, st.M⟩
 
-theorem accJacobi_def (kern : K → K) (G : K) (sqrt : K → K) (ps : Array (Body K)) (init : Acc K) :
-    accJacobi kern G sqrt ps init
-      = (forRange 0 ps.size (⟨init, V3.zero, Scalar.zero⟩ : JacSt K) (jacBody kern G sqrt ps)).acc := rfl
+theorem accJacobi_def (kern : K → K) (G : K) (sqrt : K → K) (Na : Nat) (ps : Array (Body K)) (init : Acc K) :
+    accJacobi kern G sqrt Na ps init
+      = (forRange 0 ps.size (⟨init, V3.zero, Scalar.zero⟩ : JacSt K) (jacBody kern G sqrt Na ps)).acc := rfl
 
 /-- contribution of outer iteration `j` to slot `k` -/
-def cj (kern : K → K) (G : K) (sqrt : K → K) (m : Nat → K) (x : Nat → V3 K) (j k : Nat) : V3 K :=
-  ∑ i ∈ Finset.Ico 0 (j + 1), innerC kern G sqrt m x (Rn m x j) (Mn m j) j i k
+def cj (kern : K → K) (G : K) (sqrt : K → K) (Na : Nat) (m : Nat → K) (x : Nat → V3 K) (j k : Nat) : V3 K :=
+  ∑ i ∈ Finset.Ico 0 (j + 1), innerC kern G sqrt Na m x (Rn m x j) (Mn m j) j i k
 
-theorem cj_zero (kern : K → K) (G : K) (sqrt : K → K) (m : Nat → K) (x : Nat → V3 K) {j k : Nat}
-    (h : j < k) : cj kern G sqrt m x j k = 0 := by
+theorem cj_zero (kern : K → K) (G : K) (sqrt : K → K) (Na : Nat) (m : Nat → K) (x : Nat → V3 K) {j k : Nat}
+    (h : j < k) : cj kern G sqrt Na m x j k = 0 := by
   unfold cj
   apply Finset.sum_eq_zero
   intro i hi
   have := Finset.mem_Ico.mp hi
-  exact innerC_zero kern G sqrt m x _ _ (by omega) (by omega)
+  exact innerC_zero kern G sqrt Na m x _ _ (by omega) (by omega)
 
-theorem jacobi_invariant (kern : K → K) (G : K) (sqrt : K → K) {N : Nat} (m : Nat → K) (x : Nat → V3 K)
+theorem jacobi_invariant (kern : K → K) (G : K) (sqrt : K → K) (Na : Nat) {N : Nat} (m : Nat → K) (x : Nat → V3 K)
     (init : Acc K) (hinit : init.size = N) :
     ∀ n, n ≤ N →
-      let st := forRange 0 n (⟨init, V3.zero, Scalar.zero⟩ : JacSt K) (jacBody kern G sqrt (mkPs N m x))
+      let st := forRange 0 n (⟨init, V3.zero, Scalar.zero⟩ : JacSt K) (jacBody kern G sqrt Na (mkPs N m x))
       st.R = Rn m x n ∧ st.M = Mn m n ∧ st.acc.size = N ∧
-      ∀ k, st.acc[k]? = if k < n then some (∑ j ∈ Finset.range n, cj kern G sqrt m x j k) else init[k]? := by
+      ∀ k, st.acc[k]? = if k < n then some (∑ j ∈ Finset.range n, cj kern G sqrt Na m x j k) else init[k]? := by
   intro n
   induction n with
   | zero =>
@@ -152,16 +152,16 @@ theorem jacobi_invariant (kern : K → K) (G : K) (sqrt : K → K) {N : Nat} (m 
     have hn' : n < N := by omega
     obtain ⟨iR, iM, iS, iA⟩ := ih (by omega)
     rw [forRange_succ 0 n (Nat.zero_le n)]
-    set st := forRange 0 n (⟨init, V3.zero, Scalar.zero⟩ : JacSt K) (jacBody kern G sqrt (mkPs N m x)) with hst
-    have hadd : Additive (fun acc => forRange 0 (n + 1) acc (jacInner kern G sqrt (mkPs N m x) st.R st.M n))
-        (cj kern G sqrt m x n) := by
+    set st := forRange 0 n (⟨init, V3.zero, Scalar.zero⟩ : JacSt K) (jacBody kern G sqrt Na (mkPs N m x)) with hst
+    have hadd : Additive (fun acc => forRange 0 (n + 1) acc (jacInner kern G sqrt Na (mkPs N m x) st.R st.M n))
+        (cj kern G sqrt Na m x n) := by
       unfold cj
       rw [iR, iM]
       apply additive_forRange
       intro i _ hi
-      exact additive_jacInner kern G sqrt m x _ _ (by omega) hn'
+      exact additive_jacInner kern G sqrt Na m x _ _ (by omega) hn'
     have hsize : (forRange 0 (n + 1) (st.acc.setIfInBounds n V3.zero)
-        (jacInner kern G sqrt (mkPs N m x) st.R st.M n)).size = N := by
+        (jacInner kern G sqrt Na (mkPs N m x) st.R st.M n)).size = N := by
       unfold forRange
       rw [foldl_size_eq]
       · simpa using iS
@@ -182,25 +182,25 @@ theorem jacobi_invariant (kern : K → K) (G : K) (sqrt : K → K) {N : Nat} (m 
         · subst hkn
           simp only [if_true, hn', Option.map_some, show n < n + 1 by omega, Finset.sum_range_succ]
           congr 1
-          rw [Finset.sum_eq_zero (fun j hj => cj_zero kern G sqrt m x (Finset.mem_range.mp hj))]
+          rw [Finset.sum_eq_zero (fun j hj => cj_zero kern G sqrt Na m x (Finset.mem_range.mp hj))]
           simp
         · have h1 : ¬ k < n + 1 := by omega
           simp only [hkn, if_false, iA k, hk, h1]
-          rw [cj_zero kern G sqrt m x (show n < k by omega)]
+          rw [cj_zero kern G sqrt Na m x (show n < k by omega)]
           cases init[k]? <;> simp
 
 /-- JACOBI routine: slot `k` holds the direct sum over all `j ≠ k` except the pair {0,1}
     (no softening, no ghost boxes, all particles sources) plus the Jacobi terms of all outer
     iterations `j > 1`, `j ≥ k`. -/
-theorem accJacobi_get (kern : K → K) (G : K) (sqrt : K → K) {N : Nat} (m : Nat → K) (x : Nat → V3 K)
+theorem accJacobi_get (kern : K → K) (G : K) (sqrt : K → K) (Na : Nat) {N : Nat} (m : Nat → K) (x : Nat → V3 K)
     (init : Acc K) (hinit : init.size = N) {k : Nat} (hk : k < N) :
-    (accJacobi kern G sqrt (mkPs N m x) init)[k]?
-      = some ((∑ j ∈ Finset.range N, if Src N false 1 k j
+    (accJacobi kern G sqrt Na (mkPs N m x) init)[k]?
+      = some ((∑ j ∈ Finset.range N, if Src Na true 1 k j
                 then force (fun s _ _ => kern s) 0 m x 0 k j else 0)
           + (∑ j ∈ Finset.range N, if 1 < j ∧ k ≤ j
                 then jacTerm G sqrt m x (Rn m x j) (Mn m j) j k else 0)) := by
   rw [accJacobi_def, mkPs_size]
-  obtain ⟨-, -, -, hA⟩ := jacobi_invariant kern G sqrt m x init hinit N (le_refl N)
+  obtain ⟨-, -, -, hA⟩ := jacobi_invariant kern G sqrt Na m x init hinit N (le_refl N)
   rw [hA k]
   simp only [hk, if_true]
   congr 1
@@ -233,7 +233,6 @@ theorem accJacobi_get (kern : K → K) (G : K) (sqrt : K → K) {N : Nat} (m : N
     simp only [hr, hr2, ← ite_and]
     apply ite_add_ite_of
     unfold Src
-    simp only [Bool.false_eq_true, false_and, or_false]
     simp only [true_and]
     omega
   · -- Jacobi terms
